@@ -33,6 +33,7 @@ type Obligation struct {
 	Paths     int      `json:"paths,omitempty"` // paths / rows / sites analysed for this obligation
 	Sites     int      `json:"sites,omitempty"`
 	Finding   string   `json:"finding,omitempty"`
+	Config    string   `json:"config,omitempty"` // build configuration (thorough tier), empty = host
 }
 
 type Finding struct {
